@@ -339,8 +339,15 @@ class Check:
             json.dump(obj, f, indent=1, default=repr)
         return path
 
-    def violation(self, replay_obj, found_input=True):
-        """Report a violation unless a known finding's classifier matches it."""
+    def violation(self, replay_obj, found_input=None):
+        """Report a violation unless a known finding's classifier matches it.
+        found_input: does the replay hold a concrete input/history on which THE PROPERTY fails on the real code
+        (kind 'impl-violation')?  A replay that only shows model and code disagreeing (kind 'correspondence'), a failed
+        sampled assumption or a broken proof is reported with the suffix no-failing-input-found."""
+        if found_input is None:
+            found_input = replay_obj.get('kind') == 'impl-violation'
+        replay_obj = dict(replay_obj)
+        replay_obj.setdefault('failing_input_found', bool(found_input))
         cls = replay_obj.get('class')
         for k in self.known_findings:
             if k.get('status') == 'known' and cls is not None and k.get('classifier') == cls:
